@@ -142,7 +142,7 @@ class ExprMixin:
             return st.env[name]
         return self.resolve_global(name, st)
 
-    BUILTIN_CLASSES = {"int", "bool", "str", "bytes", "float", "complex", "bytearray", "memoryview", "list", "tuple", "dict", "set", "frozenset",
+    BUILTIN_CLASSES = {"int", "bool", "str", "bytes", "float", "complex", "bytearray", "memoryview", "slice", "list", "tuple", "dict", "set", "frozenset",
                        "object", "type", "Exception", "KeyError", "IndexError", "TypeError", "ValueError",
                        "AssertionError", "AttributeError", "NotImplementedError", "StopIteration",
                        "BaseException", "LookupError", "RuntimeError", "FileNotFoundError", "OSError"}
@@ -610,6 +610,15 @@ class ExprMixin:
             s = as_seq(base, st)
             i = as_int(idx, st)
             n = Q.Length(s)
+            if idx.kind == "val" and not (idx.spec is not None and idx.spec.kind in ("int", "bool")) and not self.spec_mode:
+                # the index object may be a slice: s[slice] never raises and yields some sub-sequence
+                self.note_class("slice")
+                is_slice = isa(idx.t, "slice")
+                self.may_raise(st, z3.And(z3.Not(is_slice), z3.Or(i >= n, i < -n)), "IndexError", where)
+                r = Q._fresh_sq(st, "sliced")
+                st.assume(Q.Length(r) <= n)
+                elem = unbox(elem_spec(base), Q.At(s, norm_index(i, n)), st)
+                return S_val(z3.If(is_slice, box(Sym("seq", r, base.spec), st), box(elem, st)))
             self.may_raise(st, z3.Or(i >= n, i < -n), "IndexError", where)
             strict = getattr(self, "contract", None) and node is not None and ast.unparse(node) in self.contract.strict_index
             if strict:
